@@ -141,10 +141,10 @@ theorem stopsM_tablerowCols (P : Prims) (tr : Bool) (cols : Option Expr) (loc : 
     cases cv <;> exact stopsM_pure _
   · exact stopsM_pure _
 
-theorem stopsM_loopRun (P : Prims) (path : Bytes) (loc : Loc) (tr : Bool) (var : Bytes) (e : Expr) (mods : LoopMods)
+theorem stopsM_loopRun {budget : Int} (P : Prims) (path : Bytes) (loc : Loc) (tr : Bool) (var : Bytes) (e : Expr) (mods : LoopMods)
     {bodyM : M Status} (hb : StopsM bodyM) (tooMany : Bool) (elseM : Option (M Status))
     (he : ∀ m, elseM = some m → StopsM m) :
-    StopsM (loopRun P path loc tr var e mods bodyM tooMany elseM) := by
+    StopsM (loopRun budget P path loc tr var e mods bodyM tooMany elseM) := by
   unfold loopRun
   refine stopsM_wrapAt _ _ (stopsM_bind stopsM_getEnv (fun env => stopsM_bind (stopsM_ofRes _) (fun v =>
     stopsM_bind (stopsM_ofRes _) (fun items0 => stopsM_bind (stopsM_intModifier _ _ _) (fun off =>
